@@ -8,6 +8,12 @@ import tlc
 KEYS = [1, 2, 3]
 
 
+MANIFEST = dict(
+    text='TLC checks the syscall-grain file-store design (FileStore.tla) under a crash between any two system calls for all store sequences up to the bound, and shows that each named deviation breaks an invariant. Every store sequence TLC explores is executed on the real FilePersister with write/lseek interposed; every system-call boundary is materialised as a disk image, reopened with a fresh FilePersister and interrogated; TLC validates each recorded execution against the C27 monitor.',
+    note='Crash model of the property statement (between completed system calls, no torn writes). Trusts TLC, the syscall seam, ASan/UBSan.',
+    tech='TLA+ crash-consistency design spec + TLC; exhaustive crash-point enumeration on the real code via syscall seam; TLC trace validation',
+    ref='5.9, 6 C27')
+
 def after_ops(seqs_used, inflight_hint, base_id):
     """What is asked of the reopened store: every number, the control record, last; then two further
     stores (one on a number that may have been in flight, one fresh) and their retrieval."""
@@ -89,6 +95,7 @@ def run(ctx):
     pc.judge(ctx, scheds, execs, memerr, "c27")
     ctx.tick("validate")
     ncrash = 0
+    ctx.sigs = set()
     import hashlib, json as _json
     for e in execs:
         if not e:
